@@ -368,3 +368,106 @@ func stopBacklogCase(k *engine.Case) {
 	}
 	k.Count("stop_backlog_cases_ok", 1)
 }
+
+// deepBacklogCase: a worker that has already served some operations is blocked, and 70-260
+// operations on one key pile up behind it (the worker's queue has to grow while it is not at
+// its starting position). They must reach the store in the order they were accepted, and the
+// cache must end up with the store's value.
+func deepBacklogCase(k *engine.Case) {
+	r := k.R
+	workers := 1 + r.Intn(3)
+	gen := func() mux.CacheFacade { return mux.NewFacadeMap() }
+	g := mux.NewWorkGrp(gen, mux.WithSize(workers), mux.WithDeep(400))
+	g.Start()
+	st := newStore()
+	keys, _ := keyPool(r)
+	key := keys[0]
+	d := engine.NewDriver(Q, k)
+	var mu sync.Mutex
+	var order []int
+	up := func(id int) opRes {
+		v, err := g.DoUpsertThenRenewInCache(context.Background(), func(ctx context.Context, dd interface{}, e interface{}) (interface{}, error) {
+			mu.Lock()
+			order = append(order, id)
+			mu.Unlock()
+			return st.upsert(ctx, dd, e)
+		}, key, datum{key: keyStr(key), k: key, v: id})
+		return opRes{v, err}
+	}
+	// the worker serves a few operations first (its queue position moves on)
+	warm := 3 + r.Intn(40)
+	for i := 0; i < warm; i++ {
+		if res := up(i); res.err != nil {
+			k.Fail("wrong-result", "warm-up upsert #%d failed: %v", i, res.err)
+			return
+		}
+	}
+	st.mu.Lock()
+	st.gate = make(chan struct{})
+	st.gateCb = "upsert"
+	st.mu.Unlock()
+	gateOp := d.Spawn("gate-op", func() any { return up(1000) })
+	if !d.Quiesce() {
+		return
+	}
+	if gateOp.Done() {
+		k.Fail("operation-stuck", "the gate operation did not block in the store's upsert callback")
+		return
+	}
+	n := 70 + r.Intn(190)
+	k.Logf("%d workers; %d operations served, then %d upserts on key %v queued one after the other behind a blocked one", workers, warm, n, key)
+	k.Nontrivial()
+	ops := make([]*engine.Op, n)
+	for i := 0; i < n; i++ {
+		id := 2000 + i
+		ops[i] = d.Spawn(fmt.Sprintf("queued#%d", id), func() any { return up(id) })
+		if !d.Quiesce() {
+			return
+		}
+		if ops[i].Done() {
+			k.Fail("order", "upsert #%d returned %+v while the worker is blocked in an earlier operation on the same key", id, ops[i].Result())
+			return
+		}
+	}
+	st.mu.Lock()
+	close(st.gate)
+	st.gate = nil
+	st.mu.Unlock()
+	if !d.Quiesce() {
+		return
+	}
+	k.Evals(int64(n))
+	k.Count("deep_backlog_cases", 1)
+	k.Count("deep_backlog_queued_ops", int64(n))
+	for i, o := range ops {
+		if !o.Done() {
+			k.Fail("operation-stuck", "queued upsert #%d never returned after the gate was opened", 2000+i)
+			return
+		}
+	}
+	mu.Lock()
+	got := append([]int(nil), order[warm:]...)
+	mu.Unlock()
+	for i := 1; i < len(got); i++ {
+		if got[i] <= got[i-1] {
+			lo := i - 3
+			if lo < 0 {
+				lo = 0
+			}
+			hi := i + 3
+			if hi > len(got) {
+				hi = len(got)
+			}
+			k.Fail("order", "%d upserts on one key were accepted in increasing order of their number behind a blocked worker (which had served %d operations before); they reached the store as ... %v ... (position %d)", n, warm, got[lo:hi], i)
+			return
+		}
+	}
+	if len(got) != n+1 {
+		k.Fail("order", "%d queued upserts + the gate operation: the store saw %d upsert callbacks", n, len(got))
+		return
+	}
+	sp := d.Spawn("stop", func() any { g.Stop(); g.WaitStop(context.Background()); return nil })
+	if d.Quiesce() && !sp.Done() {
+		k.Fail("workers-not-terminated", "Stop + WaitStop did not return: %v", Q.Describe())
+	}
+}
